@@ -1,21 +1,53 @@
 package main
 
 import (
+	"bytes"
+	"context"
+	"encoding/hex"
 	"fmt"
+	"os"
+	"strings"
+	"time"
 
 	"fortio.org/log"
 	"grol.io/grol/eval"
 	"grol.io/grol/extensions"
-	"grol.io/grol/object"
+	"grol.io/grol/repl"
 )
+
+func ev(s *eval.State, out *bytes.Buffer, in string) {
+	_, p, errs, _ := repl.EvalOne(context.Background(), s, in, out, repl.Options{All: true, ShowEval: true, NoColor: true, MaxDuration: 300 * time.Millisecond})
+	s.Context, s.Cancel = nil, nil
+	fmt.Printf("  eval %q -> panic=%v errs=%v out=%q\n", in, p, errs, out.String())
+	out.Reset()
+}
 
 func main() {
 	_ = extensions.Init(&extensions.Config{HasLoad: true, HasSave: true})
 	log.SetLogLevelQuiet(log.Critical)
+	b, _ := os.ReadFile(os.Args[1])
+	f := strings.Fields(string(b))
+	raw, _ := hex.DecodeString(f[2])
+	stmts := strings.Split(string(raw), "\x00")
 	s := eval.NewState()
-	s.MaxDepth = 300
-	o, err := eval.EvalString(s, "info.globals", false)
-	fmt.Printf("%T %v %v\n", o, err, o.Inspect())
-	m, ok := o.(object.Map)
-	fmt.Println(ok, m)
+	var out bytes.Buffer
+	s.Out, s.LogOut, s.NoLog = &out, &out, true
+	for _, st := range stmts {
+		ev(s, &out, st)
+	}
+	var w bytes.Buffer
+	s.SaveGlobals(&w)
+	fmt.Printf("%s", w.String())
+	s2 := eval.NewState()
+	s2.Out, s2.LogOut, s2.NoLog = &out, &out, true
+	for _, l := range strings.Split(strings.TrimSuffix(w.String(), "\n"), "\n") {
+		_, err := eval.EvalString(s2, l, false)
+		if err != nil {
+			fmt.Println("LOADERR", l, err)
+		}
+	}
+	for _, call := range os.Args[2:] {
+		ev(s, &out, call)
+		ev(s2, &out, call)
+	}
 }
